@@ -97,7 +97,7 @@ func evalMutated(r *ev.Run, m mutation, stream []byte, keys []ech.Key, goKeys []
 }
 
 func Run(r *ev.Run) {
-	r.Rule("fault enumeration (E1): base tuples = 3 AEADs x inner with/without outer-extension compression x ECH extension first/middle/last x session id 0/32 bytes, sealed by the reference sender; per base: EVERY single-bit flip of the outer ClientHello handshake message, every truncation of enc and of payload (consistent length prefixes), enc replaced by another valid point, wrong private key (same id), config differing in one byte (wrong info), suite id altered in the extension, suite absent from the config, wrong config id, payload sealed at sequence number 1, payload sealed for another outer hello, 1..32 zero/non-zero bytes inserted after the extensions block, an extension added/removed after sealing, hellos sealed consistently but naming a config id the server does not hold or a suite its config does not list, payloads forged from public data for 7 low-order X25519 points as enc. distinct = distinct (stream, key set) pairs")
+	r.Rule("fault enumeration (E1): base tuples = 3 AEADs x inner with/without outer-extension compression x ECH extension first/middle/last x session id 0/32 bytes, sealed by the reference sender; per base: EVERY single-bit flip of the outer ClientHello handshake message, every truncation of enc and of payload (consistent length prefixes), enc replaced by another valid point, wrong private key (same id), config differing in one byte (wrong info), suite id altered in the extension, suite absent from the config, wrong config id, payload sealed at sequence number 1, payload sealed for another outer hello, 1..32 zero/non-zero bytes inserted after the extensions block or inside the ECH extension after the payload, an extension added/removed after sealing, hellos sealed consistently but naming a config id the server does not hold or a suite its config does not list, payloads forged from public data for 7 low-order X25519 points as enc. distinct = distinct (stream, key set) pairs")
 	r.Assume("reference sender validated against crypto/tls on every run", "bit flips cover the handshake message (header+body), not the 5-byte record header, which is not authenticated by ECH")
 	key := echx.NewKey("c02", 42, echx.AllSuites, "public.example")
 	if err := c03.SelfValidate(echx.NewKey("c03", 7, echx.AllSuites, "public.example")); err != nil {
@@ -214,6 +214,17 @@ func Run(r *ev.Run) {
 				h := built.Outer.Clone()
 				h.Trailer = bytes.Repeat([]byte{fill}, n)
 				jobs = append(jobs, job{mutation{b, fmt.Sprintf("trailing-bytes-after-extensions-%02x", fill), n}, h.Record(), keys})
+			}
+		}
+		// bytes appended INSIDE the ECH extension, after the payload vector (extension and block lengths fixed up): the AAD
+		// covers the whole outer hello with only the payload zeroed, so these bytes must break authentication
+		for _, n := range []int{1, 2, 7, 32} {
+			for _, fill := range []byte{0x00, 0x01} {
+				h := built.Outer.Clone()
+				e := tlsref.ECHOuter(1, b.AEAD, 42, enc, payload)
+				e.Data = append(append([]byte{}, e.Data...), bytes.Repeat([]byte{fill}, n)...)
+				h.Exts[s.EchIdx] = e
+				jobs = append(jobs, job{mutation{b, fmt.Sprintf("bytes-after-payload-inside-ech-extension-%02x", fill), n}, h.Record(), keys})
 			}
 		}
 		// an extra (unknown) extension appended after sealing, and an extension removed after sealing
